@@ -90,11 +90,11 @@ def gen(rng, allow_generated):
             else:
                 f = func("g", [{"k": "cself", "name": "", "ty": TN}], mptr(nm("Nowhere")), 0x50000)
             m["impls"].append({"name": n, "funcs": [f]})
-    # enums: base a built-in, or an extern type of another module seen through the module import
+    # enums: base a built-in, or (rejected since fix F22: no integer type) an extern type of another module
     if rng.random() < 0.5:
         k = rng.randrange(n_mods)
-        base = "u32"
-        if n_mods > 1 and rng.random() < 0.6:
+        base = rng.choice(["u32", "u8", "i16", "u64"])
+        if n_mods > 1 and rng.random() < 0.12:
             other = (k + 1) % n_mods
             mods[other]["exts"].append({"name": "DWORD", "size": 4, "align": 4})
             base = "DWORD"
